@@ -3,6 +3,7 @@ CONSTANTS
   Depth = 1
   DeepIds = {}
   BaseIds = {1}
+  BigQuorums = {256}
   QuorumLowerBound = FALSE
   EmitScenarios = FALSE
 INVARIANTS CodeSound
